@@ -15,7 +15,9 @@ import ast
 import copy
 
 PURE_CALLS = ('len', 'int', 'min', 'max', 'abs', 'ord', 'chr', 'hex', 'str', 'repr', 'bool', 'bytes', 'roundup', 'sizeof', 'initial_length_field_size',
-              'isinstance', 'tuple', 'bytes2str', 'bytes2hex', 'startswith', 'endswith', 'get', 'format')
+              'isinstance', 'tuple', 'list', 'next', 'bytes2str', 'bytes2hex', 'startswith', 'endswith', 'get', 'format',
+              # accessors of the library that only read (they may move a stream they re-position themselves)
+              'get_table_offset', 'iter_tags', 'num_tags', 'get_tag', 'sizeof', 'get_machine_arch')
 
 
 def _is_doc(st):
@@ -326,10 +328,16 @@ def _has_impure_call(e):
 
 
 def _read_roots(e):
-    """names and self-attribute roots an expression reads"""
+    """what an expression reads: names, `obj.attr` roots, and `name['key']` slots (a slot read does not count as a read of the
+    whole container, so that writes to *other* slots of a parsed record do not clash with it)"""
     out = set()
+    slot_bases = set()
     for x in ast.walk(e):
-        if isinstance(x, ast.Name):
+        if isinstance(x, ast.Subscript) and isinstance(x.value, ast.Name) and isinstance(x.slice, ast.Constant) and isinstance(x.slice.value, str):
+            out.add('%s[%s]' % (x.value.id, x.slice.value))
+            slot_bases.add(id(x.value))
+    for x in ast.walk(e):
+        if isinstance(x, ast.Name) and id(x) not in slot_bases:
             out.add(x.id)
         elif isinstance(x, ast.Attribute) and isinstance(x.value, ast.Name):
             out.add('%s.%s' % (x.value.id, x.attr))
@@ -344,6 +352,9 @@ def _write_roots(st):
         elif isinstance(x, ast.Attribute) and isinstance(x.ctx, (ast.Store, ast.Del)) and isinstance(x.value, ast.Name):
             out.add('%s.%s' % (x.value.id, x.attr))
         elif isinstance(x, ast.Subscript) and isinstance(x.ctx, (ast.Store, ast.Del)):
+            if isinstance(x.value, ast.Name) and isinstance(x.slice, ast.Constant) and isinstance(x.slice.value, str):
+                out.add('%s[%s]' % (x.value.id, x.slice.value))
+                continue
             b = x.value
             while isinstance(b, (ast.Subscript, ast.Attribute)) and not (isinstance(b, ast.Attribute) and isinstance(b.value, ast.Name)):
                 b = b.value
@@ -352,6 +363,20 @@ def _write_roots(st):
             elif isinstance(b, ast.Attribute):
                 out.add('%s.%s' % (b.value.id, b.attr))
     return out
+
+
+def _clash(writes, reads):
+    """a write clashes with a read of the same thing, a slot write with a read of the whole container, and a rebinding of the
+    container with a read of any of its slots"""
+    if writes & reads:
+        return True
+    for wv in writes:
+        base = wv.split('[')[0]
+        if '[' in wv and base in reads:
+            return True
+        if '[' not in wv and any(r.startswith(wv + '[') for r in reads):
+            return True
+    return False
 
 
 def inline_temps(fn, candidates):
@@ -389,7 +414,7 @@ def inline_temps(fn, candidates):
                 continue
             skip = 0
             while skip < len(later) and isinstance(later[skip], ast.Assign) and not _has_impure_call(later[skip].value) and \
-                    not any(x.id == name for x in _loads(later[skip])) and not (_write_roots(later[skip]) & _read_roots(rhs)) and \
+                    not any(x.id == name for x in _loads(later[skip])) and not _clash(_write_roots(later[skip]), _read_roots(rhs)) and \
                     all(isinstance(t, ast.Name) for t in later[skip].targets):
                 skip += 1
             if skip >= len(later):
@@ -414,11 +439,11 @@ def inline_temps(fn, candidates):
         reads = _read_roots(rhs)
         clash = False
         for s in later[:last_use + 1]:
-            if _write_roots(s) & reads:
+            if _clash(_write_roots(s), reads):
                 # a statement that both uses t and rebinds an operand (x = f(t, x)) is fine only if it is the using statement
                 # itself and a plain assignment (right-hand side evaluated first)
                 if not (isinstance(s, (ast.Assign, ast.AugAssign)) and not impure and s is later[last_use] and
-                        not any(_write_roots(z) & reads for z in later[:last_use])):
+                        not any(_clash(_write_roots(z), reads) for z in later[:last_use])):
                     clash = True
         if clash:
             continue
@@ -428,7 +453,7 @@ def inline_temps(fn, candidates):
         for s in later[:last_use + 1]:
             for lp in ast.walk(s):
                 if isinstance(lp, (ast.For, ast.While)) and any(x.id == name for x in _loads(lp)):
-                    if _write_roots(lp) & reads or impure:
+                    if _clash(_write_roots(lp), reads) or impure:
                         bad = True
         if bad:
             continue
